@@ -26,6 +26,8 @@ Oracle scope
              32 767-character limit (not in the statement); arrays/ranges as
              arguments (C14/C07).
 """
+import itertools
+
 from .. import lib
 from ..gen import texts as gt
 from ..ref import text1 as ref
@@ -452,6 +454,10 @@ def fam_idml(tier, route, lo, hi):
                      rhs=F('LEFT', s, n))
 
 
+NUMERIC_TEXTS = ('2.5', '2.50', '7', '007', '1E3', '1000', '7 ', ' 7', '-0',
+                 '0', '+7', '7.0')
+
+
 def conv_exprs():
     """Numbers and booleans in every text position."""
     out = []
@@ -487,6 +493,14 @@ def conv_exprs():
                 for name in ('CONCAT', 'CONCATENATE', '&'):
                     add(name, x, y)
                 out.append(('id-len-concat', 'LEN&', [x, y]))
+    # texts that spell the same number differently are different texts (and a
+    # number is compared by its own text form)
+    for x, y in itertools.product(NUMERIC_TEXTS, repeat=2):
+        add('EXACT', x, y)
+    for num, text in ((2.5, '2.50'), (7, '007'), (1000, '1E3'), (0, '-0'),
+                      (7, '7 '), (2.5, '2.5'), (7, '7')):
+        add('EXACT', num, text)
+        add('EXACT', text, num)
     uniq, seen = [], set()
     for item in out:
         k = repr(item)             # repr keeps 0 / False and 1 / True apart
@@ -626,6 +640,8 @@ def plan(tier):
                 shards.append({'fam': 'find', 'route': route, 'lo': lo,
                                'hi': min(gt.count(L), lo + step), 'block': b})
     shards.append({'fam': 'casepair', 'route': 'formula', 'lo': 0, 'hi': 0})
+    shards.append({'fam': 'named-book', 'route': 'formula', 'lo': 0,
+                   'hi': 0})
     nconv = len(conv_exprs())
     for route in ('call', 'formula', 'cell'):
         for lo in range(0, nconv, 150):
@@ -682,7 +698,52 @@ def ref_value(e):
     return e
 
 
+# -- text literals in a workbook that has defined names ---------------------------
+# A text literal is its characters - also when they spell a defined name.
+NAMED_BOOK_NAMES = {'Total': 'Sheet1!$A$1', 'ab': 'Sheet1!$A$2',
+                    'a': 'Sheet1!$A$1:$A$2', 'TOTAL': 'Sheet1!$A$2'}
+NAMED_BOOK_PROBES = (
+    ('LEN("Total")', 'num:5.0'), ('UPPER("Total")', 'text:TOTAL'),
+    ('LOWER("TOTAL")', 'text:total'),
+    ('LEFT("Total",2)&RIGHT("Total",LEN("Total")-2)', 'text:Total'),
+    ('MID("ab",1,1)', 'text:a'), ('FIND("a","ab")', 'num:1.0'),
+    ('EXACT("a","a")', 'bool:True'), ('EXACT("Total","TOTAL")', 'bool:False'),
+    ('"ab"&"a"', 'text:aba'), ('CONCAT("Total","ab")', 'text:Totalab'),
+    ('REPLACE("Total",1,2,"ab")', 'text:abtal'), ('TRIM(" ab ")', 'text:ab'),
+    ('LEN("a")+Total', 'num:6.0'), ('"Total"&Total', 'text:Total5'),
+)
+
+
+def run_named_book(ctx):
+    import os
+    import tempfile
+    import warnings
+    from ..gen import rawxlsx
+    cells = {'A1': {'form': 'n', 'v': 5}, 'A2': {'form': 'n', 'v': 7}}
+    for k, (text, _) in enumerate(NAMED_BOOK_PROBES):
+        cells['C%d' % (k + 1)] = {'form': 'f', 'f': text}
+    with tempfile.TemporaryDirectory(prefix='xlmc_c17_') as tmp:
+        path = os.path.join(tmp, 'named.xlsx')
+        with open(path, 'wb') as fp:
+            fp.write(rawxlsx.build([('Sheet1', cells)], NAMED_BOOK_NAMES))
+        with warnings.catch_warnings():
+            warnings.simplefilter('ignore')
+            model = lib.ModelCompiler().read_and_parse_archive(path)
+    ev = lib.Evaluator(model)
+    for k, (text, want) in enumerate(NAMED_BOOK_PROBES):
+        got = lib.observe(ev.evaluate, 'Sheet1!C%d' % (k + 1))
+        ctx.check('C17/named-book/' + text, got, want,
+                  ['family:literal-spells-a-defined-name'],
+                  {'fam': 'named-book'}, True,
+                  note='workbook with the defined names %s'
+                  % sorted(NAMED_BOOK_NAMES))
+    lib.clear_caches()
+
+
 def run_shard(shard, ctx):
+    if shard['fam'] == 'named-book':
+        run_named_book(ctx)
+        return
     if shard['fam'] == 'casepair':
         run_casepairs(ctx)
         return
@@ -706,6 +767,9 @@ def run_shard(shard, ctx):
 
 
 def replay(inputs, ctx):
+    if inputs.get('fam') == 'named-book':
+        run_named_book(ctx)
+        return
     if inputs.get('fam') == 'casepair':
         run_casepairs(ctx)
         return
